@@ -1,5 +1,5 @@
 """The table of checks (one per property) and the generic runner."""
-import json, os, sys, time
+import json, os, sys, time, hashlib
 from harness import *  # noqa: F401,F403
 import harness as H
 
@@ -28,6 +28,37 @@ def step_vgraph(cmd):
         out = os.path.join(H.OUT, f"{pid}.{cmd}.json")
         return cmd, H.run_engine([H.tool("vgraph"), cmd, "--prop", pid, "--tier", tier, "--seed", str(seed), "--out", out], out)
     return f
+
+
+CODE_TAGS = {"CODE-TOKENS": ["C01", "C06"], "CODE-ERRORS": ["C02", "C06"], "CODE-TILING": ["C03", "C06"], "CODE-PARTIAL": ["C07", "C06"],
+             "CODE-BACKENDS": ["C06"], "CODE-READS": ["C20"], "CODE-PANIC": ["C03", "C05", "C06"]}
+
+
+def step_code(pid, tier, seed):
+    """Layer 1.5: the emitted code of every enumerated definition, both code generators, executed by
+    the interpreter on model traces of its own graph (vgraph code). The run does not depend on the
+    property (only the tag filter does), so its complete result is kept under out/ keyed by the
+    content hash of the engine binary - which has /repo's logos-codegen compiled in - and re-used by
+    the other properties' checks as long as that binary is unchanged."""
+    H.build_tools()
+    exe = H.tool("vgraph")
+    with open(exe, "rb") as f:
+        key = hashlib.sha256(f.read()).hexdigest()[:24]
+    cdir = os.path.join(H.OUT, "code-cache")
+    os.makedirs(cdir, exist_ok=True)
+    cached = os.path.join(cdir, f"{key}.{tier}.{seed}.json")
+    if os.path.exists(cached):
+        with open(cached) as f:
+            rep = json.load(f)
+        rep.setdefault("notes", []).append(f"result of the identical engine binary re-used (sha256 {key}); computed once per tree")
+    else:
+        for old in os.listdir(cdir):
+            if old.endswith(f".{tier}.{seed}.json"):
+                os.remove(os.path.join(cdir, old))
+        rep = H.run_engine([exe, "code", "--prop", "ALL", "--tier", tier, "--seed", str(seed), "--out", cached], cached, timeout=7200)
+    rep = dict(rep)
+    rep["violations"] = [v for v in rep.get("violations", []) if pid in CODE_TAGS.get(v["tag"], [])]
+    return "code", rep
 
 
 def step_layer2(cfgs_quick, cfgs_thorough, vprop=None, crash_tag=None):
@@ -238,6 +269,8 @@ L1_ASSUME = [
     "the capture hook copies the final Graph faithfully (cfg feature verif_hooks, add-only)",
 ]
 
+CODE_ASSUME = ["Layer 1.5 executes the emitted code with an interpreter of the Rust subset the generators use (vgraph/src/interp.rs) against a transcription of the runtime's LexerInternal; rustc and the real runtime are bound by Layer 2 on the compiled sub-corpus; definitions whose output leaves the subset (callbacks) are counted as not interpretable, never judged"]
+
 PROPS = {}
 
 
@@ -249,19 +282,19 @@ prop("C01", level="model_checking",
      technique="explicit-state product exploration (captured logos Graph x independent reference automaton), all inputs of every length per definition, over an enumerated definition family",
      text="Exhaustive BFS of the synchronous product of the real pipeline's final Graph with an independently built reference automaton decides longest-match/priority outcome equality for every input of every length, for every definition of a systematically enumerated family; tags OUTCOME, EARLY-STOP.",
      note="Trusted: regex-syntax parser/translator, rustc, harness code. Bounds: definition family F(k)+curated; inputs unbounded at the graph level.",
-     design_ref="5 C01, 3", steps=[step_selfcheck, step_layer1, step_layer2(["u-dev"], ["u-dev", "u-rel", "f-dev", "f-rel"]), step_bind], assumptions=L1_ASSUME)
+     design_ref="5 C01, 3", steps=[step_selfcheck, step_layer1, step_code, step_layer2(["u-dev"], ["u-dev", "u-rel", "f-dev", "f-rel"]), step_bind], assumptions=L1_ASSUME + CODE_ASSUME)
 prop("C02", level="model_checking",
      technique="explicit-state product exploration (Graph x reference automaton): error fatal offset, stop-consuming point",
      text="The same product exploration decides, for every input of every length, that a match attempt stops exactly at the first symbol after which no pattern can match any extension (tags ERRSPAN, EARLY-STOP, OVERREAD).",
-     note="Same trusted base as C01. The error VALUE (Default / error callback / pattern callback) is checked through the real derive (vderive c13).", design_ref="5 C02, 3", steps=[step_selfcheck, step_layer1, step_layer2(["u-dev"], ["u-dev", "u-rel", "f-dev", "f-rel"]), step_vderive("c13", ["tc-u-dev"], ["tc-u-dev", "sm-u-dev", "tc-f-rel"])], assumptions=L1_ASSUME)
+     note="Same trusted base as C01. The error VALUE (Default / error callback / pattern callback) is checked through the real derive (vderive c13).", design_ref="5 C02, 3", steps=[step_selfcheck, step_layer1, step_code, step_layer2(["u-dev"], ["u-dev", "u-rel", "f-dev", "f-rel"]), step_vderive("c13", ["tc-u-dev"], ["tc-u-dev", "sm-u-dev", "tc-f-rel"])], assumptions=L1_ASSUME + CODE_ASSUME)
 prop("C03", level="model_checking",
      technique="structural invariants on every captured Graph + nullable-pattern rejection over the enumerated family",
      text="Every captured graph is checked for the invariants that make any walk terminate and tile (root records nothing, EOI edges lead to terminal late-accept states, every edge consumes one byte), and every enumerated definition with a pattern that can match the empty string (decided on the reference automaton) must be rejected.",
-     note="Same trusted base as C01.", design_ref="5 C03", steps=[step_selfcheck, step_layer1, step_layer2(["u-dev"], ["u-dev", "u-rel", "f-dev", "f-rel"])], assumptions=L1_ASSUME)
+     note="Same trusted base as C01.", design_ref="5 C03", steps=[step_selfcheck, step_layer1, step_code, step_layer2(["u-dev"], ["u-dev", "u-rel", "f-dev", "f-rel"])], assumptions=L1_ASSUME + CODE_ASSUME)
 prop("C07", level="model_checking",
      technique="explicit-state product exploration: at every reachable product state the partial lexer's commit/ask-for-more decision is compared with reference determinedness",
      text="For every prefix of every input (every reachable product state at a legal buffer end) the real return-None condition must coincide with 'some continuation changes the outcome' computed on the reference automaton (tags PARTIAL-UNSOUND, PARTIAL-LATE).",
-     note="Same trusted base as C01.", design_ref="5 C07", steps=[step_selfcheck, step_layer1, step_layer2(["u-dev"], ["u-dev", "u-rel", "f-dev", "f-rel"])], assumptions=L1_ASSUME)
+     note="Same trusted base as C01.", design_ref="5 C07", steps=[step_selfcheck, step_layer1, step_code, step_layer2(["u-dev"], ["u-dev", "u-rel", "f-dev", "f-rel"])], assumptions=L1_ASSUME + CODE_ASSUME)
 prop("C08", level="model_checking",
      technique="exhaustive exploration of the reference subset automaton for top-priority ties, compared with the derive's Disambiguation errors over all enumerated pattern pairs/triples x priority schemes",
      text="conflict(reference) <=> Disambiguation(derive), with the same set of named patterns, on every definition of the family that is not rejected for another reason.",
@@ -304,14 +337,14 @@ prop("C05", level="exploration", engine="vrt",
      technique="exhaustive enumeration of Source::read over every (len, offset, chunk size) incl. wrap-around offsets, and of lexing inputs of every length around the 8-byte batch in exactly sized heap allocations, under valgrind memcheck; default vs forbid_unsafe builds x dev/release compared through the common reference",
      text="Source::read returns Some(bytes) iff offset+N <= len in unbounded arithmetic for every enumerated case in all four builds; every compiled lexer run on exactly sized heap inputs is free of invalid reads under memcheck; unsafe and forbid_unsafe builds (dev and release) produce the reference's transcript with no panic.",
      note="valgrind only makes an out-of-bounds access observable; the deciding step is the exhaustive enumeration. Transcript equality between builds is established through equality with the same reference lexer.", design_ref="5 C05",
-     steps=[step_readprobe, step_layer2(["u-dev", "u-rel", "f-dev", "f-rel"], ["u-dev", "u-rel", "f-dev", "f-rel"], crash_tag="CRASH"), step_valgrind, step_miri],
+     steps=[step_readprobe, step_layer2(["u-dev", "u-rel", "f-dev", "f-rel"], ["u-dev", "u-rel", "f-dev", "f-rel"], crash_tag="CRASH"), step_valgrind, step_miri, step_code],
      rules=["Source::read: every len 0..=40 x offset {0..=len+2, usize::MAX-40..=usize::MAX, 2^63+-1, ...} x chunk size {u8,1,2,3,4,7,8,9,16,32} on str and [u8] (non-trivial = end within +-1 of len or overflowing); lexing: all strings <= L symbols + transition cover x 256 + loop inputs of every length 0..=26 on exactly sized heap copies (non-trivial = expected stream has >= 2 items, an error or a skip)"],
      assumptions=L2_ASSUME + ["memcheck detects reads past an exactly sized heap block (verified in DESIGN calibration)"])
 prop("C06", level="exploration", engine="vrt",
      technique="exhaustive differential replay: both code generators' compiled output in one process on every enumerated input; state-machine stack bound by a length ladder on a small stack plus a structural check of the emitted code",
      text="For every compiled definition and every enumerated input the tail-call and state-machine lexers produce identical items, spans and end positions; the state-machine output contains no per-state functions (structural), and runs inputs up to millions of bytes on a 64 KiB stack.",
      note="Callback invocation order is compared in vderive (real derive).", design_ref="5 C06",
-     steps=[step_vgraph("c06struct"), step_layer2(["u-dev"], ["u-dev", "u-rel", "f-dev", "f-rel"]), step_stack, step_vderive("c13", ["tc-u-dev", "sm-u-dev"], ["tc-u-dev", "sm-u-dev", "tc-f-rel", "sm-f-rel"], compare_digests=True)],
+     steps=[step_vgraph("c06struct"), step_code, step_layer2(["u-dev"], ["u-dev", "u-rel", "f-dev", "f-rel"]), step_stack, step_vderive("c13", ["tc-u-dev", "sm-u-dev"], ["tc-u-dev", "sm-u-dev", "tc-f-rel", "sm-f-rel"], compare_digests=True)],
      rules=["all strings <= L symbols over the representative alphabet + transition cover x 256 + loop inputs, per compiled definition, both back ends in one process; non-trivial = expected stream has >= 2 items, an error or a skip"],
      assumptions=L2_ASSUME)
 prop("C12", level="exploration", engine="vgraph+vrt",
@@ -325,7 +358,7 @@ prop("C20", level="model_checking", engine="vgraph+vrt",
      technique="structural invariants of every captured graph (determinism, one byte per edge) + exhaustive read-trace monitoring of compiled lexers (read-trace hook) over bounded-exhaustive and adversarial inputs",
      text="Every graph edge consumes exactly one byte and states are deterministic; on every replayed input (both back ends, trace build) read offsets never decrease within an attempt, reads are bounded by 2 x bytes examined + 6, and each attempt starts at the end of the previous item or skip.",
      note="The read-trace hook records every LexerInternal::read, next and trivia call (cfg feature verif_hooks).", design_ref="5 C20",
-     steps=[step_selfcheck, step_layer1, step_layer2(["t-dev"], ["t-dev"]), step_vderive("c20", ["tc-u-dev-t", "sm-u-dev-t"], ["tc-u-dev-t", "sm-u-dev-t", "tc-f-dev-t", "sm-f-dev-t"])], assumptions=L2_ASSUME)
+     steps=[step_selfcheck, step_layer1, step_code, step_layer2(["t-dev"], ["t-dev"]), step_vderive("c20", ["tc-u-dev-t", "sm-u-dev-t"], ["tc-u-dev-t", "sm-u-dev-t", "tc-f-dev-t", "sm-f-dev-t"])], assumptions=L2_ASSUME)
 
 prop("C13", level="exploration", engine="vderive",
      technique="exhaustive enumeration of all inputs up to a length bound through enums compiled with the REAL derive, carrying callbacks of every documented return type; item streams, spans and callback invocation logs compared with a hand-written reference + the documented table; tail-call vs state-machine transcripts compared by digest",
@@ -447,7 +480,7 @@ def replay_once(path):
     kind = (rec.get("replay") or {}).get("kind")
     H.build_tools()
     out = os.path.join(H.OUT, "replay.json")
-    if kind in ("layer1", "tokens", "c16", "c18", "c19", "c13cb"):
+    if kind in ("layer1", "tokens", "c16", "c18", "c19", "c13cb", "code"):
         rep = H.run_engine([H.tool("vgraph"), "replay", "--prop", rec["property"], "--file", path, "--out", out], out)
     elif kind in ("layer2", "readprobe"):
         tier = "quick"
